@@ -44,9 +44,9 @@ MSG = {"Point lies outside of the specified simplex.": "OutsideSimplex",
 GEOMETRIC = ("volumes_sum_to_hull", "delaunay", "facet_in_at_most_two", "every_point_a_vertex", "internal_error",
              "degenerate_simplex")
 # genuine defect of the unchanged tree found by this check (signature for known_findings.json)
-F13 = ("F13 Triangulation.bowyer_watson drops the flat simplex over a cavity facet that is coplanar with the new point "
+F31 = ("F31 Triangulation.bowyer_watson drops the flat simplex over a cavity facet that is coplanar with the new point "
        "and shared with a surviving simplex; the hanging facet makes later insertions overlap")
-F14 = ("F14 Triangulation.point_in_cicumcircle: the (1+1e-8) tolerance puts a simplex into the cavity although the new "
+F32 = ("F32 Triangulation.point_in_cicumcircle: the (1+1e-8) tolerance puts a simplex into the cavity although the new "
        "point is outside its circumsphere; under strongly anisotropic transforms the cavity is not star-shaped and "
        "the new simplices overlap")
 
@@ -167,8 +167,8 @@ class Oracle:
         self.min_margin = {}
         self.sliver = Fr(0)
         self.would_fail_fragile = 0
-        self.hanging = None       # (step, facet): trigger of finding F13, see GEOMETRIC / F13 below
-        self.tolerated = None     # (step, simplex): trigger of finding F14
+        self.hanging = None       # (step, facet): trigger of finding F31, see GEOMETRIC / F31 below
+        self.tolerated = None     # (step, simplex): trigger of finding F32
 
     def err(self, clause, msg, step):
         if clause in GEOMETRIC:
@@ -178,19 +178,19 @@ class Oracle:
             if self.hanging is not None:
                 # DESIGN 4.7: on a history that met the trigger of the finding the geometric clauses are
                 # attributed to it (any other clause is still reported under its own name)
-                clause, msg = F13, (f"{msg}; at step {self.hanging[0]} bowyer_watson suppressed the flat simplex over the "
+                clause, msg = F31, (f"{msg}; at step {self.hanging[0]} bowyer_watson suppressed the flat simplex over the "
                                     f"cavity facet {self.hanging[1]} which is shared with a surviving simplex")
                 self.errors.append((clause, msg, step))
                 return
             if self.tolerated is not None:
-                clause, msg = F14, (f"{msg}; at step {self.tolerated[0]} point_in_cicumcircle accepted simplex "
+                clause, msg = F32, (f"{msg}; at step {self.tolerated[0]} point_in_cicumcircle accepted simplex "
                                     f"{self.tolerated[1]} whose circumsphere does not contain the point (within 1e-8)")
                 self.errors.append((clause, msg, step))
                 return
         self.errors.append((clause, msg, step))
 
     def note_hanging(self, tri, a, step):
-        """trigger of F13: a candidate simplex (cavity facet + new point) was suppressed as flat although the facet
+        """trigger of F31: a candidate simplex (cavity facet + new point) was suppressed as flat although the facet
         also belongs to a simplex that survives the insertion (the new point is coplanar with an interior facet of
         the cavity boundary): the survivor keeps a facet that is no facet of its new neighbours"""
         if self.hanging is not None:
@@ -231,7 +231,7 @@ class Oracle:
             ex, m, outside = X.x_in_circ(P[pt_index], [P[i] for i in s], self.TF, detail=True)
             self._pred("circ", res, ex, m, f"point_in_cicumcircle({pt_index}, {s})", step)
             if res and outside and ex and m >= FRAGILE["circ"] and pt_index not in s and self.tolerated is None:
-                # trigger of F14: the (1 + eps) tolerance declares a simplex bad although the point is
+                # trigger of F32: the (1 + eps) tolerance declares a simplex bad although the point is
                 # strictly outside its circumsphere
                 self.tolerated = (step, simp(s))
         for s, res in a.flat:
